@@ -522,8 +522,10 @@ class _Builder:
         if kind == "Elements":
             n = d(st.integers(2, 3))
             choices, seen_types = [], set()
+            # one compound field in six starts with an int choice followed by a bool choice (bool is a subclass of int)
+            planned = [[{"p": "int"}], [{"p": "bool"}]] if d(st.integers(0, 5)) == 0 else []
             for _ in range(n):
-                tr = self.type_for_element(depth)
+                tr = planned.pop(0) if planned else self.type_for_element(depth)
                 key = tuple(sorted(str(t) for t in tr))
                 tset = {str(t) for t in tr}
                 py_types = {_pytype_key(t) for t in tr}
